@@ -185,7 +185,9 @@ Fixpoint assertions (cf : mconf) (ev : env) (ls : labels) (its : list item) : mr
   end.
 
 Definition meaning (cf : mconf) (p : prog) : mres :=
-  let '(ev, ls, ins, n) := collect (pr_items p) 0 [] [] [] in
+  let '(ev, ls0, ins, n) := collect (pr_items p) 0 [] [] [] in
+  (* labels on the END line stand for the address just past the last instruction *)
+  let ls := ls0 ++ map (fun id => (id, n)) (pr_end_labels p) in
   match assertions cf ev ls (pr_items p) with
   | MReject => MReject
   | MUnconstrained => MUnconstrained
